@@ -16,7 +16,7 @@ TECHNIQUE = "whole simulations from generated devices/drives; invariant oracle: 
 RULE = (
     "case = generated device (box/ellipse/union film, 0..2 holes incl. non-convex, 2..4 terminals) x field (zero/static/ramped) x balanced "
     "currents (dict or callable, integer multiples of a decimal quantum such as 0.1/0.2/-0.3, exact rational sum 0) x screening on/off "
-    "x adaptive on/off x unit system, 5..40 steps, every recorded frame checked at every site; non-trivial = some frame has a "
+    "x adaptive on/off x unit system x optional thermalisation stage (after which the clock of a time-dependent current restarts), 5..40 steps, every recorded frame checked at every site; non-trivial = some frame has a "
     "terminal carrying non-zero current and max|Js| > 1e-6; distinct by spec hash"
 )
 ASSUMPTIONS = [
@@ -33,8 +33,8 @@ LEVEL_NOTE = "Trusted: harness divergence assembly from mesh arrays, SI constant
 
 def budget(tier):
     if tier == "quick":
-        return dict(max_examples=150, workers=6, time_s=170, min_cases=50)
-    return dict(max_examples=3000, workers=16, time_s=1200, min_cases=100)
+        return dict(max_examples=500, workers=8, time_s=170, min_cases=120)
+    return dict(max_examples=12000, workers=16, time_s=1200, min_cases=240)
 
 
 @st.composite
@@ -48,10 +48,15 @@ def _case(draw, tier):
     fld = draw(gen.field(dev, fu, kinds=("zero", "constant", "float", "ramp", "gauge_param"), bmax=0.2 if scr else 0.5))
     cur = draw(gen.currents(dev, cu, kinds=("dict", "dict", "callable"), allow_zero=False))
     adaptive = draw(st.booleans())
+    nsteps = draw(st.integers(5, 25 if not big else 40))
+    # a thermalisation stage before the recorded one: the clock (and so a time-dependent current) restarts, whatever was
+    # being injected at the end of the first stage
+    skip = draw(st.sampled_from([0, 0, 1, nsteps // 2, nsteps, 2 * nsteps]))
     return dict(device=dev, field=fld, currents=cur,
                 options=dict(dt_c=draw(gen.rf(0.05, 0.4)), dtmax_c=0.45, adaptive=adaptive, adaptive_window=draw(st.integers(1, 6)),
+                             skip_steps=skip,
                              include_screening=scr, screening_tolerance=1e-3, field_units=fu, current_units=cu,
-                             nsteps=draw(st.integers(5, 25 if not big else 40)), save_every=draw(st.sampled_from([1, 2, 3, 5])),
+                             nsteps=nsteps, save_every=draw(st.sampled_from([1, 1, 2, 3, 5])),
                              terminal_psi=draw(st.sampled_from([0.0, 0.0, None, [0.3, 0.4]]))))
 
 
@@ -118,7 +123,7 @@ def check_case(spec):
     nt = len(names)
     res.label(f"terminals={nt}", f"holes={len(spec['device']['holes'])}", "screening" if opts.include_screening else "no screening",
               "adaptive" if opts.adaptive else "fixed dt", f"currents={cur_spec['kind']}{'+shift' if cur_spec.get('shift') else ''}", f"field={spec['field']['kind']}",
-              f"units={lu}/{opts.field_units}/{cu}")
+              f"units={lu}/{opts.field_units}/{cu}", "thermalisation stage" if spec["options"].get("skip_steps") else "single stage")
     if any("." in cur_spec["quantum"] or "e-" in cur_spec["quantum"] for _ in [0]):
         res.label("decimal currents")
     # library's own classification must agree with the oracle (same sites/edges)
